@@ -26,8 +26,9 @@ SRC = [os.path.join(vlib.HARNESS, f) for f in ("c17_ledger.c", "c17_drivers.c")]
 HDR = os.path.join(vlib.HARNESS, "c17_ledger.h")
 WORK = os.path.join(vlib.OUT, "c17")
 MAX_FILE_EVENTS = 25000      # events per validated file (one JVM run)
-SHARD_BLOCK_EVENTS = 1200    # block events per shard: bounds the live set TLC carries in a shard
-SHARD_IF_OVER = 2500         # executions with more events than this are sharded
+SHARD_BLOCK_EVENTS = 300     # block events per shard: bounds the live set TLC carries (measured: 7.4k events/s
+                             # per JVM at 300, 1.1k events/s for an unsharded 13k-event c2mir execution)
+SHARD_IF_OVER = 600          # executions with more events than this are sharded
 DEV_JVMS = int(os.environ.get("C17_JVMS", "0"))
 
 
@@ -38,7 +39,10 @@ def njvms():
 # ------------------------------------------------------------------ build
 
 def build(variant):
-    d, objs, cc, flags = vlib.build_lib(variant, units=UNITS)
+    # clang turns a call in tail position (free at the end of a *_finish function) into a jump, which would
+    # attribute the raw call to the caller's caller: finding keys must not depend on the compiler
+    extra = "-fno-optimize-sibling-calls" if variant == "asan" else ""
+    d, objs, cc, flags = vlib.build_lib(variant, units=UNITS, extra_flags=extra)
     hs = vlib.tree_hash(SRC + [HDR])
     wd = os.path.join(WORK, "bin", os.path.basename(d) + "-" + hs[:8])
     exe = os.path.join(wd, "c17")
@@ -78,6 +82,8 @@ LINKS = ["interp", "gen", "lazy", "lazybb"]
 
 
 def hist(src, link="interp", opt=2, run=1, out=0, rep=1, fin="full"):
+    if "sieve" in src and link == "interp":
+        run = 0          # the sieve programs take 40 s (plain) / 250 s (asan) in the interpreter
     return "src=%s,link=%s,opt=%d,run=%d,out=%d,rep=%d,fin=%s" % (src, link, opt, run, out, rep, fin)
 
 
@@ -162,9 +168,24 @@ class Symb:
         self.base = int(o.split()[0], 16) if o.strip() else 0
 
     def resolve(self, pcs):
+        """pc -> [(function, file)] innermost first.  llvm-symbolizer reads the inline records of both compilers
+        (binutils addr2line loses clang's inlined frames); the two agree on gcc objects (checked on 400 sites)."""
         need = sorted(set(p for p in pcs if p not in self.cache))
+        llvm = shutil.which("llvm-symbolizer")
         for ch in vlib.chunks(need, 400):
-            rc, o, e = vlib.sh(["addr2line", "-a", "-f", "-i", "-e", self.exe] + ["0x%x" % (self.base + p - 1) for p in ch])
+            addrs = ["0x%x" % (self.base + p - 1) for p in ch]
+            if llvm:
+                rc, o, e = vlib.sh([llvm, "-e", self.exe, "--inlines"] + addrs)
+                if rc != 0:
+                    raise MachineryError("llvm-symbolizer failed: " + e[-500:])
+                blocks = o.strip("\n").split("\n\n")
+                if len(blocks) != len(ch):
+                    raise MachineryError("llvm-symbolizer returned %d blocks for %d addresses" % (len(blocks), len(ch)))
+                for p, blk in zip(ch, blocks):
+                    ls = blk.splitlines()
+                    self.cache[p] = [(ls[i], os.path.basename(ls[i + 1].split(":")[0])) for i in range(0, len(ls) - 1, 2)] or [("?", "?")]
+                continue
+            rc, o, e = vlib.sh(["addr2line", "-a", "-f", "-i", "-e", self.exe] + addrs)
             if rc != 0:
                 raise MachineryError("addr2line failed: " + e[-500:])
             cur = None
@@ -217,7 +238,7 @@ class Exec:
         self.trace, self.first_line = trace, first_line
         self.aborted = any(e["e"] == "Abort" for e in events)
         self.complete = len(events) >= 2 and events[-1]["e"] == "Reset" and events[-2]["e"] == "Finish"
-        self.forced = set()   # finding keys repaired after having been reported (to look behind them)
+        self.crash = None
 
 
 def split_trace(path, hists, variant):
@@ -454,17 +475,22 @@ class Validator:
         self.rejections = []              # (exec, key, text, event)
         self.nfile = 0
         self.known_rewrites = collections.Counter()
+        self.forced = set()               # keys already reported in this run: repaired everywhere to look behind them
+        self.key_execs = collections.defaultdict(set)
+        self.key_events = collections.Counter()
 
-    def known_fn(self, x):
-        return lambda key: self.ck.findings.is_known(PROP, key) or key in x.forced
+    def known_fn(self, x=None):
+        return lambda key: self.ck.findings.is_known(PROP, key) or key in self.forced
 
     def units_of(self, x):
         tev, hits = normalize(x, self.symb[x.variant], self.known_fn(x))
         for key, (n, e) in hits.items():
+            self.key_execs[key].add((x.history, x.variant))
             if self.ck.findings.is_known(PROP, key):
                 self.known_rewrites[key] += n
                 if key not in self.ck.known_hits:
                     self.ck.violation(key, "", None)      # records the KNOWN-FINDING hit, writes nothing
+        x.tev = tev                       # exactly what TLC sees (diagnosis replays this, not a later rewriting)
         sh = shard(tev)
         return [Unit(x, s, i, len(sh)) for i, s in enumerate(sh)]
 
@@ -532,6 +558,9 @@ class Validator:
     # -------------------------------------------------------------- diagnosis of a rejection
     def report(self, x, key, text, ev, extra=None):
         self.rejections.append((x, key, text, ev))
+        self.key_execs[key].add((x.history, x.variant))
+        if key in self.forced or any(k == key for k, _, _ in self.ck.violations):
+            return                      # one report per key and run
         case = {"history": x.history, "variant": x.variant, "event": ev, "key": key}
         if extra:
             case.update(extra)
@@ -561,23 +590,20 @@ class Validator:
                         "none": "libc free() of a pointer unknown to the ledger", "dead": "libc free() of a released block"}.get(own, "")
                 self.report(x, key, "library code calls libc %s directly, %d time(s) in this execution (%s) %s; %s"
                             % (e2["e"][3:].lower(), n, sy.chain(e2.get("pc")), what, where), e2)
-                x.forced.add(key)
+                self.forced.add(key)
             return True
         if k == "Finish":
             live, code = self.ledger_at(x, idx)
-            n = 0
             for bid, ae in sorted(live.items()):
                 key = leak_key(sy, ae)
                 if not self.known_fn(x)(key):
-                    n += 1
                     self.report(x, key, "block %d (%s bytes) allocated in %s is still held after MIR_finish; %s"
                                 % (bid, ae.get("size", ae.get("nsz", "?")), sy.chain(ae.get("pc")), where), ae)
-                    x.forced.add(key)
+                    self.forced.add(key)
             for r, me in sorted(code.items()):
-                n += 1
                 self.report(x, "leak_code:%s:%s" % sy.site(me.get("pc")), "code region %d (%d bytes) is still mapped after MIR_finish; %s"
                             % (r, me["len"], where), me)
-            if n == 0:
+            if not live and not code:
                 self.report(x, "finish:rejected", "Finish rejected; " + where, e)
                 return False
             return not code
@@ -611,13 +637,10 @@ class Validator:
         return False
 
     def ledger_at(self, x, idx):
-        """Python replay of the (rewritten) ledger up to original event idx -- diagnostics only."""
-        tev, _ = normalize(x, self.symb[x.variant], self.known_fn(x))
+        """Python replay of the ledger TLC saw, up to original event idx -- diagnostics only."""
         live, code = {}, {}
-        for t, i in tev:
-            if i >= idx and t["e"] != "Free":
-                break
-            if i > idx:
+        for t, i in x.tev:
+            if i > idx or (i == idx and not (t["e"] == "Free" and x.events[i]["e"] == "Finish")):
                 break
             k = t["e"]
             src = x.events[i]
@@ -681,17 +704,40 @@ def record_all(variants, H, tag):
                     crash["variant"] = v
                     crash["trace"] = path
                     crashes.append(crash)
+                    if xs and not xs[-1].complete:
+                        xs[-1].crash = crash
+                        ce = [e for e in xs[-1].events if e["e"] == "Crash"]
+                        if ce:
+                            crash["poison"] = ce[-1].get("poison", 0)
+                            crash["crash_site"] = "%s:%s" % symb[v].site(ce[-1].get("pc"))
+                            crash["crash_pc"] = " in " + symb[v].chain(ce[-1].get("pc"))
     return execs, crashes, symb, exes
 
 
+# sanitizer reports that concern this property (a released / foreign block is touched or released again);
+# anything else ASan finds (buffer overflows ...) is a defect of another property: noted, not a C17 violation
+ASAN_IN_SCOPE = ("heap-use-after-free", "use-after-poison", "double-free", "attempting", "alloc-dealloc-mismatch", "bad-free")
+
+
 def crash_key(c):
+    """(key, in_scope) for a harness process that died; key None = the trace itself carries the fault event."""
     rc = c["rc"]
     if rc == 41:
-        return None          # a code-page fault: the trace ends with WriteFault/AccessFault, TLC rejects it
-    m = re.search(r"AddressSanitizer: ([a-z-]+)", c["stderr"] or "")
+        return None, True    # a code-page fault: the trace ends with WriteFault/AccessFault, TLC rejects it
+    err = c["stderr"] or ""
+    m = re.search(r"AddressSanitizer: ([a-z-]+)", err)
     if m:
-        return "asan:" + m.group(1)
-    return "crash:rc%s" % rc
+        sm = re.search(r"SUMMARY: AddressSanitizer: (\S+) \S*?([^/\s]+:\d+)\S* in (\S+)", err)
+        kind = m.group(1)
+        key = "asan:%s:%s" % (kind, sm.group(3) if sm else "?")
+        c["summary"] = "%s at %s in %s" % (kind, sm.group(2), sm.group(3)) if sm else kind
+        return key, kind in ASAN_IN_SCOPE
+    # A crash of the uninstrumented build cannot be attributed: a wild read that lands in a quarantined block and a
+    # read through a stale pointer both end in a dereference of the 0xDD poison.  The asan variant runs the same
+    # history and tells them apart (use-after-poison / heap-use-after-free vs. heap-buffer-overflow), so it alone
+    # decides; the crash is noted.
+    c["summary"] = "crash rc=%s%s%s" % (rc, c.get("crash_pc", ""), " (dereference of 0xDD poison)" if c.get("poison") else "")
+    return "crash:rc%s" % rc, False
 
 
 def run(tier, hist_override=None, variants=None):
@@ -706,17 +752,27 @@ def run(tier, hist_override=None, variants=None):
     good = [x for x in execs if not x.aborted]
     discarded = [x for x in execs if x.aborted]
     why = collections.Counter(next(e["why"] for e in x.events if e["e"] == "Abort")[:60] for x in discarded)
+    oos = collections.Counter()
     for c in crashes:
-        key = crash_key(c)
-        if key:
-            # confirm once (rule 5) before reporting
-            again = record(exes[c["variant"]], [c["history"]], "confirm-%s" % c["variant"])
-            if again[0][2] is None:
-                log("  note: crash of %s [%s] did not repeat; not reported" % (c["history"], c["variant"]))
-                continue
-            ck.violation(key, "%s [%s]: the harness process died (rc=%s) while running this error-free history under the "
-                         "checking allocators: %s" % (c["history"], c["variant"], c["rc"], (c["stderr"] or "")[-900:]),
-                         {"history": c["history"], "variant": c["variant"], "key": key})
+        key, in_scope = crash_key(c)
+        if key is None:
+            continue
+        if not in_scope:
+            oos[c["summary"]] += 1
+            continue
+        # confirm once (rule 5) before reporting
+        again = record(exes[c["variant"]], [c["history"]], "confirm-%s" % c["variant"])
+        if again[0][2] is None:
+            log("  note: crash of %s [%s] did not repeat; not reported" % (c["history"], c["variant"]))
+            continue
+        ck.violation(key, "%s [%s]: the harness process died (rc=%s) while running this error-free history under the "
+                     "checking allocators: %s" % (c["history"], c["variant"], c["rc"], (c["stderr"] or "")[-900:]),
+                     {"history": c["history"], "variant": c["variant"], "key": key})
+    for sm, n in sorted(oos.items()):
+        log("  note: %d execution(s) ended in a crash / sanitizer report that is outside this property "
+            "(not counted, execution discarded): %s" % (n, sm))
+    # an execution cut short by a crash is validated only if the trace carries the fault (rc 41)
+    good = [x for x in good if x.crash is None or x.crash["rc"] == 41]
     V = Validator(ck, symb)
     V.validate(good)
     nev = sum(len(x.events) for x in good)
@@ -729,6 +785,7 @@ def run(tier, hist_override=None, variants=None):
     ck.setc("executions_recorded", len(execs))
     ck.setc("discarded_not_error_free", len(discarded))
     ck.setc("discard_reasons", dict(why))
+    ck.setc("crashes_outside_property", dict(oos))
     ck.setc("events_recorded", nev)
     ck.setc("events_matched_by_tlc", V.events_validated)
     ck.setc("tlc_runs", V.tlc_runs)
@@ -744,7 +801,7 @@ def run(tier, hist_override=None, variants=None):
     ck.setc("rule", "each execution = one API history (source x interface x optimisation level x output x repetition) run on the "
                     "real library with checking allocators; its complete allocator-call trace is accepted by TLC iff it is a "
                     "behaviour of MIRAlloc; distinct = distinct (history, build variant) pairs")
-    ck.setc("trusted_base", ["TLC", "harness/c17_ledger.c (event recording)", "objcopy symbol renaming", "addr2line (names in reports only)"])
+    ck.setc("trusted_base", ["TLC", "harness/c17_ledger.c (event recording)", "objcopy symbol renaming", "llvm-symbolizer / addr2line (function names in finding keys and reports only)"])
     ck.assumptions += ["single-threaded histories on x86-64 Linux; page size 4096",
                        "only error-free histories: an execution in which the MIR error callback fired or c2mir_compile "
                        "reported errors is discarded (counted in discarded_not_error_free)",
@@ -769,7 +826,8 @@ def replay(path):
     execs, crashes, symb, exes = record_all([c["variant"]], [c["history"]], "replay")
     bad = 0
     for cr in crashes:
-        if crash_key(cr):
+        key, in_scope = crash_key(cr)
+        if key and in_scope:
             print("replay: harness died again: rc=%s %s" % (cr["rc"], (cr["stderr"] or "")[-400:]))
             bad += 1
     V = Validator(ck, symb)
